@@ -384,6 +384,29 @@ def impl_noref(c, nvs=None):
     return {"out": out, "err": err}
 
 
+def impl_noref_singles(c):
+    """the REAL detector on every variant ALONE (fresh progress objects, a walk of its own): the right-hand side of the
+    theorem `noref_multi_variant_independent`"""
+    from whatshap.variants import ReadSetReader
+    from whatshap._variants import _detect_alleles
+    objs = [_mk_variant(*v) for v in c["variants"]]
+    nvs = [o.normalized() for o in objs]
+    ids = sorted(ReadSetReader.detect_non_overlapping_variants(None, nvs))[c["first"]:]
+    while ids and nvs[ids[0]].position < c["start"]:
+        ids.pop(0)
+    read = SimpleNamespace(reference_start=c["start"], cigartuples=[tuple(x) for x in c["cigar"]], query_sequence=c["query"],
+                           query_qualities=c["quals"])
+    out, clean = [], True
+    for j in ids:
+        try:
+            for t in _detect_alleles(nvs, [ReadSetReader.build_var_progress(None, nvs, j)], 0, read):
+                out.append([int(x) for x in t])
+        except Exception:
+            clean = False
+    ps = [nvs[j].position for j in ids]
+    return {"out": out, "clean": clean, "sorted": all(a < b for a, b in zip(ps, ps[1:])), "k": len(ids)}
+
+
 def gen_noref_case(rng):
     alphabet = rng.choice(["AC", "ACG", "ACGT"])
     L = rng.randrange(10, 60)
@@ -424,12 +447,45 @@ def gen_noref_case(rng):
             "query": query, "quals": quals}
 
 
+def check_noref_independent(ctx, c, impl, inorm, msingles, mfull):
+    """independence of the variants of one no-reference call (theorem `noref_multi_variant_independent`): the real detector
+    on every variant alone = the model on every variant alone (K); and where the theorem's hypotheses hold (normalised
+    positions strictly increasing, no single walk fails, operators 0-8) the REAL call on all variants together must give
+    exactly the concatenation of the real single-variant calls - else the variants of one call influence each other: an
+    allele of an error-free read is then lost or changed by the mere presence of a neighbour (VIOLATION)."""
+    ctx.evaluated()
+    isingles = impl_noref_singles(c)
+    gone = f126_unjudged(inorm["normalized"], c["start"], c["cigar"]) if "F126" in FIXED else []
+    ms = dict(msingles)
+    if gone:
+        ms["out"] = [t for t in ms["out"] if t[0] not in gone]
+    ps = [v[0] for v in inorm["normalized"]]
+    if not (gone and ps != sorted(ps)) and isingles != ms:
+        ctx.disagree("c06.noref_singles", c, isingles, ms)
+    hyp = isingles["sorted"] and isingles["clean"] and all(op <= 8 for op, _ in c["cigar"])
+    ctx.dist("noref.independent", ("hypotheses hold, k=%d" % min(isingles["k"], 4)) if hyp else "hypotheses do not hold")
+    if not hyp:
+        return
+    if isingles["k"] >= 2 and isingles["out"]:
+        ctx.nontrivial(("noref-multi", json.dumps(c, sort_keys=True)))
+    # the theorem, executed on the model (as-is model of the unchanged detector: before the F126 adapter)
+    if msingles["sorted"] and msingles["clean"] and not ASIS and {"out": msingles["out"], "err": None} != mfull:
+        ctx.disagree("c06.noref_independent(theorem)", c, mfull, msingles)
+    if impl != {"out": isingles["out"], "err": None}:
+        ctx.fail("without a reference the variants of one call are not independent: _detect_alleles on all variants gives "
+                 f"{impl}, on each variant alone {isingles['out']}",
+                 {"stream": "noref-multi", "case": c}, key="noref-variants-of-one-call-not-independent")
+
+
 def check_noref(ctx, cases):
     reqs = []
     for c in cases:
         reqs.append(dict(op="c06.detect_noref", variants=c["variants"], first=c["first"], ref_start=c["start"], cigar=c["cigar"],
                          query=c["query"], quals=c["quals"], asis=ASIS))
         reqs.append(dict(op="c06.normalize", variants=c["variants"]))
+    sreqs = [dict(op="c06.noref_singles", variants=c["variants"], first=c["first"], ref_start=c["start"], cigar=c["cigar"],
+                  query=c["query"], quals=c["quals"], asis=ASIS) for c in cases]
+    souts = ctx.model.ask_many(sreqs)
     outs = ctx.model.ask_many(reqs)
     for n, c in enumerate(cases):
         ctx.evaluated(2)
@@ -437,6 +493,7 @@ def check_noref(ctx, cases):
         if inorm != outs[2 * n + 1]:
             ctx.disagree("c06.normalize", c, inorm, outs[2 * n + 1])
         impl = impl_noref(c)
+        check_noref_independent(ctx, c, impl, inorm, souts[n], outs[2 * n])
         if "F126" in FIXED and outs[2 * n].get("out"):
             gone = f126_unjudged(inorm["normalized"], c["start"], c["cigar"])
             outs[2 * n]["out"] = [t for t in outs[2 * n]["out"] if t[0] not in gone]
@@ -466,12 +523,17 @@ def impl_group(c):
 def gen_group_case(rng):
     n = rng.choice([1, 1, 2, 2, 2, 3, 4])
     grp = []
+    # half of the groups are error-free alignments of ONE template: every call is the allele `truth` of its haplotype
+    truth = [rng.randrange(3) for _ in range(12)] if rng.random() < 0.5 else None
     for k in range(n):
         st = rng.randrange(0, 300)
         ps = sorted(rng.sample(range(0, 12), rng.randrange(0, 5)))
         grp.append({"supp": rng.random() < 0.3, "rev": rng.random() < 0.5, "start": st, "end": st + rng.randrange(1, 100),
-                    "variants": [[p * 10, rng.randrange(2), 30] for p in ps]})
-    return {"group": grp, "threshold": rng.choice([0, 50, 150, 100000])}
+                    "variants": [[p * 10, truth[p] if truth else rng.randrange(2), rng.choice([30, 30, 17])] for p in ps]})
+    c = {"group": grp, "threshold": rng.choice([0, 50, 150, 100000])}
+    if truth:
+        c["truth"] = truth
+    return c
 
 
 def check_group(ctx, cases):
@@ -497,6 +559,20 @@ def check_group(ctx, cases):
                 ctx.fail("create_read_from_group drops the alleles of a mate (two primary alignments of one template with "
                          f"different orientation or far apart): kept {sorted(got)} of {sorted(want)}",
                          {"stream": "group", "case": c}, key=KEY_F12)
+        # theorem `merge_group_errfree(_mates)`: error-free alignments of one template - no wrong allele, and every call of
+        # every primary alignment (mate) is in the merged read
+        if c.get("truth") and impl is not None and 1 <= len(prim) <= 2:
+            truth = c["truth"]
+            got = {p: a for p, a, _ in impl}
+            wrong = sorted(p for p, a in got.items() if a != truth[p // 10])
+            lost = sorted({p for a in prim for p, _, _ in a["variants"]} - set(got))
+            if wrong:
+                ctx.fail(f"create_read_from_group records an allele none of the error-free alignments has, at {wrong}",
+                         {"stream": "group", "case": c}, key="errfree-merge-wrong-allele")
+            elif lost:
+                ctx.fail(f"create_read_from_group drops alleles of an error-free mate at {lost} (kept {sorted(got)})",
+                         {"stream": "group", "case": c}, key=KEY_F12 if len(prim) == 2 else "errfree-merge-loses-allele")
+            ctx.dist("group.errfree", f"{len(prim)} primary, {len(c['group']) - len(prim)} supplementary")
         if impl:
             ctx.nontrivial(("group", json.dumps(c, sort_keys=True)))
 
